@@ -18,6 +18,7 @@ func init() {
 			a.endForgetsLastText("P.resend")
 			a.eventsDelivered("P.events-delivered")
 			a.transitionsUnconditional("W.msg-state")
+			a.tlvParseLoopComplete("S.tlv-loop")
 			a.handlersOnlyThroughTable("S.tlv-loop")
 			// the session ends when the user says so (or the peer disconnects): nothing inside the library calls End
 			if end := a.MustFn("(*Conversation).End"); end != nil {
